@@ -212,6 +212,57 @@ Section EndToEnd.
   Qed.
 End EndToEnd.
 
+(* ---------- a connection ended abruptly by the writer ---------- *)
+Lemma is_prefix_app : forall a b, is_prefix a b = true <-> exists rest, b = a ++ rest.
+Proof.
+  induction a as [|x a IH]; intros b; cbn [is_prefix].
+  - split; [intros _; now exists b | reflexivity].
+  - destruct b as [|y b]; [split; [discriminate | intros [rest H]; discriminate]|].
+    rewrite andb_true_iff, N.eqb_eq, IH. split.
+    + intros [-> [rest ->]]. now exists rest.
+    + intros [rest H]. inversion H; subst. split; [reflexivity | now exists rest].
+Qed.
+
+(* what the oracle accepts is, for every way the connection ended, a prefix of the written bytes *)
+Theorem abort_ok_prefix : forall written read, abort_ok written read = true ->
+  exists rest, writes_of written = fst (stream_of read) ++ rest.
+Proof.
+  intros w r. unfold abort_ok. destruct (stream_of r) as [d e]. cbn [fst].
+  destruct e; intros H; try (now apply is_prefix_app).
+  apply andb_true_iff in H as [H _]. apply beq_bytes_eq in H. exists []. now rewrite app_nil_r.
+Qed.
+
+(* end-of-stream is never early: a reader that was told end-of-stream has every written byte,
+   and the writer had closed *)
+Theorem abort_ok_eof_complete : forall written read, abort_ok written read = true ->
+  snd (stream_of read) = REof ->
+  fst (stream_of read) = writes_of written /\ closes_of written <> 0%nat.
+Proof.
+  intros w r. unfold abort_ok. destruct (stream_of r) as [d e]. cbn [fst snd]. intros H ->.
+  apply andb_true_iff in H as [H1 H2]. apply beq_bytes_eq in H1. split; [assumption|].
+  destruct (closes_of w); [discriminate H2 | discriminate].
+Qed.
+
+(* the undisturbed outcome (that of quic_ok) is among the accepted ones, and an early
+   end-of-stream is not *)
+Theorem abort_ok_of_exact : forall written read,
+  stream_of read = (writes_of written, eof_if_closed written) -> abort_ok written read = true.
+Proof.
+  intros w r H. unfold abort_ok. rewrite H. unfold eof_if_closed.
+  destruct (Nat.eqb (closes_of w) 0) eqn:E.
+  - apply is_prefix_app. exists []. now rewrite app_nil_r.
+  - now rewrite beq_bytes_refl.
+Qed.
+Example abort_examples :
+  abort_ok [CWrite [1; 2; 3]; CClose] [mkrd [1] ROk; mkrd [] RErr] = true /\
+  abort_ok [CWrite [1; 2; 3]; CClose] [mkrd [] RErr] = true /\
+  abort_ok [CWrite [1; 2; 3]; CClose] [mkrd [1; 2] ROk; mkrd [3] REof] = true /\
+  abort_ok [CWrite [1; 2; 3]; CClose] [mkrd [1] ROk; mkrd [] REof] = false /\
+  abort_ok [CWrite [1; 2; 3]; CClose] [mkrd [] REof] = false /\
+  abort_ok [CWrite [1; 2; 3]] [mkrd [1; 2; 3] ROk; mkrd [] REof] = false /\
+  abort_ok [CWrite [1; 2; 3]; CClose] [mkrd [1; 3] ROk; mkrd [] RErr] = false.
+Proof. repeat split; reflexivity. Qed.
+
 (* the hypothesis is satisfiable: a perfect stream that hands over everything in one read *)
 Definition perfect_stream (_ : unit) (cs : list call) : list rd :=
   [mkrd (writes_of cs) (eof_if_closed cs)].
